@@ -20,7 +20,7 @@ TRUSTED = ["specified, not verified: SBuf primitives (Base/Tok.lean) and Ip::Add
            "list functions; libc getaddrinfo on numeric text is a model parameter whose driver instance (Proxyp/IpText.lean, modelled "
            "on glibc 2.36) is tied by the differential run only",
            "harness wraps getaddrinfo (forces AI_NUMERICHOST, records would-be name-service lookups)",
-           "behaviour flags of Gen/Proxyp.lean (resolvesNames, v1ChecksLineEnd) are probed by running the staged parser on fixed inputs"]
+           "behaviour flags of Gen/Proxyp.lean (resolvesNames, v1ChecksLineEnd, unixIgnoresAddresses) are probed by running the staged parser on fixed inputs"]
 ASSUMPTIONS = ["the address resolver is a function of the token (the same text resolves the same way at every parsing attempt)",
                "input buffers are shorter than SBuf::maxSize"]
 MANIFEST = {
@@ -38,6 +38,7 @@ MANIFEST = {
             "getaddrinfo, python reference decoder; specified not verified: SBuf primitives, Ip::Address storage, libc numeric address parsing",
     "technique": "Lean 4 proof (extension-stability of each parsing phase, encoder round trip) + constants translator + all-prefix "
                  "ASan differential run with reference decoder",
+    "engine": "inproc",
 }
 
 SIG2 = b"\r\n\r\n\x00\r\nQUIT\n"
